@@ -5,8 +5,15 @@
 package writebatch
 
 import (
+	"bytes"
 	"encoding/binary"
 	"fmt"
+	"go/ast"
+	"go/parser"
+	"go/printer"
+	"go/token"
+	"os"
+	"path/filepath"
 	"io"
 	"log/slog"
 	"net"
@@ -169,6 +176,45 @@ func gen(r *hlib.Rand, n int, tier, profile string, emit func(string, ...any)) {
 			}
 		}
 	}
+	// ---- the production sendFn (sendmmsg wrapper): source skeleton, and real syscalls against a bad descriptor /
+	// through loopback (packet tags are one byte: at most 250 datagrams)
+	emit("smsrc")
+	gsoOK := udpGSOUsable()
+	for i := 0; i < n/40+4; i++ {
+		var lens []string
+		base := hlib.Pick(r, 1, 5, 100, 1399, 1400)
+		for j := r.Range(1, 24); j > 0; j-- {
+			ln := base
+			switch r.Intn(8) {
+			case 0:
+				ln = r.Range(1, base)
+			case 1:
+				ln = base + 1
+			case 2:
+				ln = 0
+			}
+			lens = append(lens, strconv.Itoa(ln))
+		}
+		mode := "loop"
+		if r.Chance(1, 4) {
+			mode = "badfd"
+		}
+		emit("sys %s %d %s %d %s", mode, hlib.Pick(r, 2, 4, 128, 128), hlib.B(gsoOK && !r.Chance(1, 4)), hlib.Pick(r, 2, 3, 63, 63), strings.Join(lens, ","))
+	}
+	// ---- sequences of batches on one writer: the GSO flag and the slots' control side persist
+	for i := 0; i < n/8; i++ {
+		scratch := hlib.Pick(r, 2, 3, 4, 8, 128)
+		emit("reset %d %s 1 %d %s", scratch, hlib.B(!r.Chance(1, 6)), hlib.Pick(r, 2, 3, 63, 63), dsts)
+		for j := r.Range(2, 4); j > 0; j-- {
+			ps := genBatch(r, hlib.Pick(r, 4, 8, 12), r.Chance(1, 6))
+			var script []string
+			for q := hlib.Pick(r, 0, 1, 2, 3); q > 0; q-- {
+				// plenty of EIO: the disable and what follows it are the point of these cases
+				script = append(script, hlib.Pick(r, "0:eio", "0:eio", "1:ok", "1000:ok", "0:other", genOutcome(r)))
+			}
+			emit("send %s %s", pktsText(ps), scriptText(script))
+		}
+	}
 	// ---- random
 	for i := 0; i < n; i++ {
 		scratch := hlib.Pick(r, 1, 2, 3, 4, 8, 16, 128, 128, 128, 128)
@@ -216,28 +262,189 @@ func nameKey(name []byte) string {
 	return "?"
 }
 
+// sendmmsgShape renders the retry loop of batchWriter.sendmmsg from the repository source as a skeleton:
+// the retry constant, the loop header, the syscall, every switch case with its statements, and the final return.
+func sendmmsgShape() string {
+	repo := os.Getenv("VERIF_REPO")
+	if repo == "" {
+		repo = "/repo"
+	}
+	fset := token.NewFileSet()
+	f, err := parser.ParseFile(fset, filepath.Join(repo, "udp", "udp_linux_writebatch.go"), nil, 0)
+	if err != nil {
+		return "parse-error"
+	}
+	txt := func(n any) string {
+		if n == nil {
+			return ""
+		}
+		var b bytes.Buffer
+		printer.Fprint(&b, fset, n)
+		return strings.Join(strings.Fields(b.String()), " ")
+	}
+	for _, d := range f.Decls {
+		fd, ok := d.(*ast.FuncDecl)
+		if !ok || fd.Name.Name != "sendmmsg" || fd.Recv == nil {
+			continue
+		}
+		var out []string
+		for _, st := range fd.Body.List {
+			switch x := st.(type) {
+			case *ast.DeclStmt:
+				out = append(out, txt(x))
+			case *ast.ForStmt:
+				var init, cond, post any
+				if x.Init != nil {
+					init = x.Init
+				}
+				if x.Cond != nil {
+					cond = x.Cond
+				}
+				if x.Post != nil {
+					post = x.Post
+				}
+				out = append(out, "for["+txt(init)+"]["+txt(cond)+"]["+txt(post)+"]")
+				for _, b := range x.Body.List {
+					switch y := b.(type) {
+					case *ast.AssignStmt:
+						call := ""
+						if len(y.Rhs) == 1 {
+							if c, ok := y.Rhs[0].(*ast.CallExpr); ok && len(c.Args) > 0 {
+								call = txt(c.Fun) + "(" + txt(c.Args[0]) + ",…)"
+							}
+						}
+						var lhs []string
+						for _, l := range y.Lhs {
+							lhs = append(lhs, txt(l))
+						}
+						out = append(out, strings.Join(lhs, ",")+"="+call)
+					case *ast.SwitchStmt:
+						out = append(out, "switch["+txt(y.Tag)+"]")
+						for _, c := range y.Body.List {
+							cc := c.(*ast.CaseClause)
+							var conds, body []string
+							for _, e := range cc.List {
+								conds = append(conds, txt(e))
+							}
+							for _, bs := range cc.Body {
+								body = append(body, txt(bs))
+							}
+							out = append(out, "case["+strings.Join(conds, ",")+"]{"+strings.Join(body, ";")+"}")
+						}
+					default:
+						out = append(out, txt(b))
+					}
+				}
+			default:
+				out = append(out, txt(st))
+			}
+		}
+		return strings.Join(out, "|")
+	}
+	return "sendmmsg-not-found"
+}
+
+// udpGSOUsable probes UDP_SEGMENT on a throw-away socket (as prepareGSO does).
+func udpGSOUsable() bool {
+	fd, err := unix.Socket(unix.AF_INET, unix.SOCK_DGRAM, unix.IPPROTO_UDP)
+	if err != nil {
+		return false
+	}
+	defer unix.Close(fd)
+	return unix.SetsockoptInt(fd, unix.IPPROTO_UDP, unix.UDP_SEGMENT, 0) == nil
+}
+
+// sysBatch runs WriteBatch with the production sendmmsg: against an invalid descriptor (mode badfd) or through
+// the loopback interface to a receiver socket whose queue is read back (mode loop).
+func sysBatch(mode string, scratch int, gso bool, maxSeg int, lens []int, logger *slog.Logger) string {
+	rfd, err := unix.Socket(unix.AF_INET, unix.SOCK_DGRAM, unix.IPPROTO_UDP)
+	if err != nil {
+		return "no-socket"
+	}
+	defer unix.Close(rfd)
+	_ = unix.SetsockoptInt(rfd, unix.SOL_SOCKET, unix.SO_RCVBUF, 8<<20)
+	if err := unix.Bind(rfd, &unix.SockaddrInet4{Addr: [4]byte{127, 0, 0, 1}}); err != nil {
+		return "no-bind"
+	}
+	sa, _ := unix.Getsockname(rfd)
+	dst := netip.AddrPortFrom(netip.AddrFrom4([4]byte{127, 0, 0, 1}), uint16(sa.(*unix.SockaddrInet4).Port))
+	sfd := -1
+	if mode == "loop" {
+		sfd, err = unix.Socket(unix.AF_INET, unix.SOCK_DGRAM, unix.IPPROTO_UDP)
+		if err != nil {
+			return "no-socket"
+		}
+		defer unix.Close(sfd)
+	}
+	w := udp.VerifNewBatchWriter(scratch, true, gso, maxSeg, logger)
+	w.UseKernel(sfd)
+	bufs := make([][]byte, len(lens))
+	addrs := make([]netip.AddrPort, len(lens))
+	for i, ln := range lens {
+		bufs[i] = make([]byte, ln)
+		for j := range bufs[i] {
+			bufs[i][j] = byte(i) // every byte names its datagram
+		}
+		addrs[i] = dst
+	}
+	written, werr := w.WriteBatch(bufs, addrs)
+	var rx []string
+	buf := make([]byte, 70000)
+	for {
+		n, _, err := unix.Recvfrom(rfd, buf, unix.MSG_DONTWAIT)
+		if err != nil {
+			break
+		}
+		tag := "z"
+		if n > 0 {
+			tag = strconv.Itoa(int(buf[0]))
+			for _, c := range buf[:n] {
+				if c != buf[0] {
+					tag = "mixed"
+				}
+			}
+		}
+		rx = append(rx, tag+":"+strconv.Itoa(n))
+	}
+	r := "-"
+	if len(rx) > 0 {
+		r = strings.Join(rx, ",")
+	}
+	return fmt.Sprintf("w=%d e=%s g=%s rx=%s", written, hlib.B(werr != nil), hlib.B(w.GSOSupported()), r)
+}
+
+type writer struct {
+	w       *udp.VerifBatchWriter
+	scratch int
+	dsts    []netip.AddrPort
+	keyIdx  map[string]int
+}
+
 func newExec(t *testing.T) func([]string) string {
 	logger := slog.New(slog.NewTextHandler(io.Discard, nil))
 	var slab []byte
-	return func(a []string) string {
-		if (a[0] != "wb" && a[0] != "wbq") || len(a) != 8 {
-			return "bad-op"
+	var cur *writer // the writer shared by `send` ops since the last `reset`
+
+	mk := func(a []string) *writer { // scratch isV4 gso maxSeg dsts
+		wr := &writer{scratch: hlib.Atoi(a[0]), keyIdx: map[string]int{}}
+		for _, s := range strings.Split(a[4], ";") {
+			wr.dsts = append(wr.dsts, hlib.ParseAddrPortHex(s))
 		}
-		scratch, isV4, gso, maxSeg := hlib.Atoi(a[1]), a[2] == "1", a[3] == "1", hlib.Atoi(a[4])
-		var dsts []netip.AddrPort
-		for _, s := range strings.Split(a[5], ";") {
-			dsts = append(dsts, hlib.ParseAddrPortHex(s))
-		}
-		keyIdx := map[string]int{}
-		for i, d := range dsts {
-			if _, ok := keyIdx[wireKey(d)]; !ok {
-				keyIdx[wireKey(d)] = i
+		for i, d := range wr.dsts {
+			if _, ok := wr.keyIdx[wireKey(d)]; !ok {
+				wr.keyIdx[wireKey(d)] = i
 			}
 		}
+		wr.w = udp.VerifNewBatchWriter(wr.scratch, a[1] == "1", a[2] == "1", hlib.Atoi(a[3]), logger)
+		return wr
+	}
+
+	doBatch := func(wr *writer, pktsArg, scriptArg string, queue bool) string {
+		w, dsts, keyIdx := wr.w, wr.dsts, wr.keyIdx
 		var lens, dIdx []int
 		total := 0
-		if a[6] != "-" {
-			for _, s := range strings.Split(a[6], ",") {
+		if pktsArg != "-" {
+			for _, s := range strings.Split(pktsArg, ",") {
 				f := strings.Split(s, "@")
 				lens = append(lens, hlib.Atoi(f[0]))
 				dIdx = append(dIdx, hlib.Atoi(f[1]))
@@ -264,14 +471,13 @@ func newExec(t *testing.T) func([]string) string {
 			err  string
 		}
 		var script []outcome
-		if a[7] != "-" {
-			for _, s := range strings.Split(a[7], ",") {
+		if scriptArg != "-" {
+			for _, s := range strings.Split(scriptArg, ",") {
 				f := strings.Split(s, ":")
 				script = append(script, outcome{hlib.Atoi(f[0]), f[1]})
 			}
 		}
 
-		w := udp.VerifNewBatchWriter(scratch, isV4, gso, maxSeg, logger)
 		var calls []string
 		k := 0
 		w.SetSendFn(func(start, n int) (int, error) {
@@ -316,6 +522,7 @@ func newExec(t *testing.T) func([]string) string {
 				default:
 					s = "[" + strings.Join(idxs, ";") + "]+" + strconv.Itoa(len(idxs))
 				}
+				// the control side exactly as the kernel would see it: Hdr.Control / Hdr.Controllen
 				if len(control) == 0 {
 					s += "p"
 				} else {
@@ -354,9 +561,9 @@ func newExec(t *testing.T) func([]string) string {
 		})
 		var written int
 		var err error
-		if a[0] == "wbq" {
+		if queue {
 			// the production path: packets are reserved from the SendBatch arena, committed, and flushed
-			sb := batch.NewSendBatch(w, hlib.Atoi(a[1]), 64)
+			sb := batch.NewSendBatch(w, wr.scratch, 64)
 			for i, ln := range lens {
 				b := sb.Reserve(ln)
 				if ln > 0 {
@@ -379,6 +586,32 @@ func newExec(t *testing.T) func([]string) string {
 			out += " | " + c
 		}
 		return out
+	}
+
+	return func(a []string) string {
+		switch {
+		case a[0] == "reset" && len(a) == 6:
+			cur = mk(a[1:])
+			return "ok"
+		case a[0] == "send" && len(a) == 3:
+			if cur == nil {
+				return "bad-op"
+			}
+			return doBatch(cur, a[1], a[2], false)
+		case a[0] == "smsrc":
+			return sendmmsgShape()
+		case a[0] == "sys" && len(a) == 6:
+			var lens []int
+			if a[5] != "-" {
+				for _, x := range strings.Split(a[5], ",") {
+					lens = append(lens, hlib.Atoi(x))
+				}
+			}
+			return sysBatch(a[1], hlib.Atoi(a[2]), a[3] == "1", hlib.Atoi(a[4]), lens, logger)
+		case (a[0] == "wb" || a[0] == "wbq") && len(a) == 8:
+			return doBatch(mk(a[1:6]), a[6], a[7], a[0] == "wbq")
+		}
+		return "bad-op"
 	}
 }
 
